@@ -44,6 +44,7 @@ const (
 	stLockWait       // parked because a lock (or Once) it wants is busy; runnable only to re-probe
 	stRunning        // released; if observed at quiescence: durably blocked in a real blocking operation
 	stDone
+	stCondWait // waiting on a simulated sync.Cond: runnable only after Signal/Broadcast
 )
 
 // Decision is one scheduling decision: which task runs next and for how many
@@ -134,6 +135,9 @@ type Task struct {
 	yields    int64
 	prio      int
 	failEpoch int64 // scheduler epoch at which this task was last released to probe a lock
+	condOn    *sync.Cond
+	condWoken bool
+	condSeq   int64
 
 	panicked bool
 }
@@ -459,6 +463,89 @@ func BeforeLock(mu any, kind int) {
 //go:noinline
 func (s *Sim) progress() { s.epoch++ }
 
+// CondWait / CondSignal / CondBroadcast replace the methods of sync.Cond in
+// instrumented code. The real Cond.Wait re-acquires its mutex inside the
+// standard library, where no lock probe can be placed; a task blocking there is
+// not durably blocked and would stall the simulation. So condition variables
+// are fully simulated: waiters queue on the simulator (FIFO, like the runtime's
+// ticket order) and are made runnable by Signal/Broadcast.
+func CondWait(c *sync.Cond) {
+	s := cur.Load()
+	if s == nil {
+		c.Wait()
+		return
+	}
+	t := s.taskOf(getg())
+	if t == nil {
+		c.Wait()
+		return
+	}
+	s.condEnqueue(t, c)
+	c.L.Unlock()
+	for !s.condIsWoken(t) {
+		s.park(t, stCondWait)
+	}
+	s.condClear(t)
+	BeforeLock(c.L, LockW)
+	c.L.Lock()
+}
+
+//go:norace
+//go:noinline
+func (s *Sim) condEnqueue(t *Task, c *sync.Cond) {
+	s.seq++
+	t.condOn, t.condWoken, t.condSeq = c, false, s.seq
+}
+
+//go:norace
+//go:noinline
+func (s *Sim) condIsWoken(t *Task) bool { return t.condWoken }
+
+//go:norace
+//go:noinline
+func (s *Sim) condClear(t *Task) { t.condOn, t.condWoken = nil, false }
+
+//go:norace
+//go:noinline
+func (s *Sim) condWake(c *sync.Cond, all bool) {
+	for {
+		var first *Task
+		n := int(s.ntasks)
+		for i := 0; i < n; i++ {
+			t := s.tasks[i]
+			if t != nil && t.condOn == c && !t.condWoken && (first == nil || t.condSeq < first.condSeq) {
+				first = t
+			}
+		}
+		if first == nil {
+			return
+		}
+		first.condWoken = true
+		s.epoch++
+		if !all {
+			return
+		}
+	}
+}
+
+func CondSignal(c *sync.Cond) {
+	s := cur.Load()
+	if s == nil || s.taskOf(getg()) == nil {
+		c.Signal()
+		return
+	}
+	s.condWake(c, false)
+}
+
+func CondBroadcast(c *sync.Cond) {
+	s := cur.Load()
+	if s == nil || s.taskOf(getg()) == nil {
+		c.Broadcast()
+		return
+	}
+	s.condWake(c, true)
+}
+
 // OnceDo replaces o.Do(f) for sync.Once values.
 func OnceDo(o *sync.Once, f func()) {
 	s := cur.Load()
@@ -568,6 +655,8 @@ func (s *Sim) collect() {
 				st = "blocked"
 			case stLockWait:
 				st = "lockwait"
+			case stCondWait:
+				st = "condwait"
 			}
 			s.res.Blocked = append(s.res.Blocked, BlockedInfo{Task: t.Name, State: st, Site: SiteString(t.site)})
 		}
@@ -637,6 +726,11 @@ func (s *Sim) schedule() {
 				runnable = append(runnable, t)
 				lockers++
 				alive++
+			case stCondWait:
+				alive++
+				if t.condWoken {
+					runnable = append(runnable, t)
+				}
 			case stRunning, stStarting:
 				// durably blocked in a real blocking operation: when the
 				// runtime wakes it, it must park at its first yield.
